@@ -46,6 +46,11 @@ func feltOf(x uint64) felt.Felt {
 	return f
 }
 
+func isU64(f *felt.Felt) bool {
+	g := feltOf(f.Uint64())
+	return g.Equal(f)
+}
+
 func (e Ev) update(removed bool) *l1.StateUpdate {
 	return &l1.StateUpdate{
 		L2BlockNumber: e.L2,
@@ -148,4 +153,174 @@ func parseStep(txt string) (Step, uint64, error) {
 		return st, num(f[3]), nil
 	}
 	return bad()
+}
+
+// Case: optional stored head, the client's chunk size, the steps.
+type Case struct {
+	H0    *Ev
+	Chunk uint64
+	Steps []Step
+	// generator statistics (not part of the case)
+	Gen    string
+	Reorgs int
+	Multi  int
+}
+
+func (c *Case) h0Text() string {
+	if c.H0 == nil {
+		return "-"
+	}
+	return c.H0.String()
+}
+
+func (c *Case) stepTexts() []string {
+	out := make([]string, len(c.Steps))
+	for i, s := range c.Steps {
+		out[i] = s.Text(c.Chunk)
+	}
+	return out
+}
+
+// the oracle line; obs[i] = observation after step i ("?" when nil or missing)
+func (c *Case) line(obs []string) string {
+	parts := make([]string, len(c.Steps))
+	for i, s := range c.Steps {
+		o := "?"
+		if i < len(obs) && obs[i] != "" {
+			o = obs[i]
+		}
+		parts[i] = s.Text(c.Chunk) + " @ " + o
+	}
+	return c.h0Text() + " | " + strings.Join(parts, " ; ")
+}
+
+// input-only form (no observations): identifies the case
+func (c *Case) key() string {
+	return c.h0Text() + " | " + strings.Join(c.stepTexts(), " ; ")
+}
+
+type Replay struct {
+	Mode  string   `json:"mode"` // det | run
+	H0    string   `json:"h0"`
+	Chunk uint64   `json:"chunk"`
+	Steps []string `json:"steps"`
+	Line  string   `json:"line,omitempty"`
+	Reply string   `json:"reply,omitempty"`
+}
+
+func (c *Case) replay(mode string) Replay {
+	return Replay{Mode: mode, H0: c.h0Text(), Chunk: c.Chunk, Steps: c.stepTexts()}
+}
+
+func caseOfReplay(rp *Replay) *Case {
+	cs := &Case{Chunk: rp.Chunk, Gen: "replay"}
+	if cs.Chunk == 0 {
+		cs.Chunk = 1 // chunk 0 does not terminate in the Go code
+	}
+	if h := strings.TrimSpace(rp.H0); h != "-" && h != "" {
+		e, err := parseEv(h)
+		hx.Must(err)
+		cs.H0 = &e
+	}
+	for _, t := range rp.Steps {
+		s, _, err := parseStep(t)
+		hx.Must(err)
+		cs.Steps = append(cs.Steps, s)
+	}
+	return cs
+}
+
+// ---------- observations ----------
+
+// observeHead renders Blockchain.L1Head(): "-" | "l2:id"; torn = hash and root do not belong together.
+func observeHead(chain *blockchain.Blockchain) (obs string, torn string) {
+	h, err := chain.L1Head()
+	if errors.Is(err, db.ErrKeyNotFound) {
+		return "-", ""
+	}
+	if err != nil {
+		hx.Fatalf("L1Head: %v", err)
+	}
+	if h.BlockHash == nil || h.StateRoot == nil {
+		return fmt.Sprintf("%d:nil", h.BlockNumber), "nil hash or root in stored head"
+	}
+	if !isU64(h.BlockHash) {
+		return fmt.Sprintf("%d:%s", h.BlockNumber, h.BlockHash.String()), "hash outside the id range: " + h.BlockHash.String()
+	}
+	id := h.BlockHash.Uint64()
+	want := feltOf(id + rootOffset)
+	if !h.StateRoot.Equal(&want) {
+		torn = fmt.Sprintf("head l2=%d hash=id %d but root=%s", h.BlockNumber, id, h.StateRoot.String())
+	}
+	return fmt.Sprintf("%d:%d", h.BlockNumber, id), torn
+}
+
+func observeBuffer(cl *l1.Client) string {
+	b := cl.VerifBuffer()
+	if len(b) == 0 {
+		return "-"
+	}
+	keys := make([]uint64, 0, len(b))
+	for k := range b {
+		keys = append(keys, k)
+	}
+	sort.Slice(keys, func(i, j int) bool { return keys[i] < keys[j] })
+	parts := make([]string, len(keys))
+	for i, k := range keys {
+		v := b[k]
+		id := "x" + v.L2BlockHash.String()
+		if isU64(&v.L2BlockHash) {
+			id = strconv.FormatUint(v.L2BlockHash.Uint64(), 10)
+		}
+		parts[i] = fmt.Sprintf("%d:%d:%s", k, v.L2BlockNumber, id)
+	}
+	return strings.Join(parts, ",")
+}
+
+func storeH0(chain *blockchain.Blockchain, h0 *Ev) {
+	if h0 == nil {
+		return
+	}
+	hash, root := feltOf(h0.ID), feltOf(h0.ID+rootOffset)
+	hx.Must(chain.SetL1Head(&core.L1Head{BlockNumber: h0.L2, BlockHash: &hash, StateRoot: &root}))
+}
+
+// ---------- oracle reply ----------
+type Rec struct {
+	MH, MB, Commit    string
+	Env               bool
+	Spec, Never, Mono string
+}
+
+func parseReply(reply string, n int) []Rec {
+	parts := strings.Split(reply, ";")
+	if len(parts) != n {
+		hx.Fatalf("oracle reply has %d records for %d steps: %q", len(parts), n, reply)
+	}
+	out := make([]Rec, n)
+	for i, p := range parts {
+		for _, kv := range strings.Fields(p) {
+			k, v, ok := strings.Cut(kv, "=")
+			if !ok {
+				hx.Fatalf("oracle record %q", p)
+			}
+			switch k {
+			case "mh":
+				out[i].MH = v
+			case "mb":
+				out[i].MB = v
+			case "env":
+				out[i].Env = v == "1"
+			case "commit":
+				out[i].Commit = v
+			case "spec":
+				out[i].Spec = v
+			case "never":
+				out[i].Never = v
+			case "mono":
+				out[i].Mono = v
+			}
+		}
+	}
+	return out
 }
